@@ -42,6 +42,14 @@ class InjectedBase(BaseException):
     pass
 
 
+class InjectedTwoArgs(Exception):
+    """An exception type that cannot be built from a single message (like UnicodeDecodeError, CalledProcessError)."""
+
+    def __init__(self, code: int, what: str) -> None:
+        super().__init__(code, what)
+        self.code, self.what = code, what
+
+
 class HarnessSkip(Exception):
     """An operation that cannot be attempted because an earlier one (rightly or wrongly) failed; never judged."""
 
@@ -89,6 +97,8 @@ class Run:
         self.audit_violations: List[tuple] = []
         self.client_parts: Dict[int, str] = {}
         self.build_error: Optional[BaseException] = None
+        self.ops_done: Dict[int, int] = {}
+        self.clients_finished: Dict[int, bool] = {}
         self.ref_tables: Dict[str, Any] = {}
 
     # ------------------------------------------------------------------ materialisation
@@ -110,7 +120,16 @@ class Run:
         def _pause(idx: int, what: str) -> None:
             run.sim.ev("describe_pause", env_name, idx, what)
             run.rt.probe("describe_paused")
-            run.sim.yield_("describe-pause", info=("pause", env_name, idx))
+            if what == "peer":
+                # the describing function waits until another client has finished one more operation (or all are done):
+                # a build must not hold back what other threads do
+                me = run.sim.me()
+                done0 = dict(run.ops_done)
+                others = [c for c, nm in run.client_parts.items() if nm != (me.name if me else None)]
+                run.sim.yield_("describe-wait-peer", info=("pause", env_name, idx), pred=lambda: any(
+                    run.ops_done.get(c, 0) > done0.get(c, 0) for c in others) or all(run.clients_finished.get(c) for c in others))
+            else:
+                run.sim.yield_("describe-pause", info=("pause", env_name, idx))
             if what == "raise":
                 raise InjectedError(f"injected build failure at statement {idx}")
 
@@ -260,7 +279,8 @@ class Run:
 
     def _raise(self, flt: dict, op: Any, path: Any, nid: Any) -> None:
         kind = flt.get("kind", "exc")
-        e: BaseException = InjectedError(f"injected {nid}") if kind == "exc" else InjectedBase(f"injected-base {nid}")
+        e: BaseException = InjectedError(f"injected {nid}") if kind == "exc" else \
+            InjectedTwoArgs(7, f"injected {nid}") if kind == "exc2" else InjectedBase(f"injected-base {nid}")
         self.injected[(op, nid)] = e
         self.fired.append((flt["when"], kind))
         self.sim.ev("fault", self.rt.tok_op and None, nid, flt["when"], kind)
@@ -425,7 +445,7 @@ class Run:
             run.op_inst[(c, i, j)] = cl["inst"]
             try:
                 results[j] = ("ok", await run.instances[cl["inst"]](*[lit(a) for a in cl["args"]]))
-            except SimAbort:
+            except (SimAbort, SimLivelock):
                 raise
             except asyncio.CancelledError:
                 results[j] = ("cancelled", None)
@@ -486,14 +506,18 @@ class Run:
                 try:
                     v = self.do_op(c, i, op)
                     self.outcomes[(c, i)] = {"status": "ok", "value": v}
+                    self.ops_done[c] = self.ops_done.get(c, 0) + 1
                     self.sim.ev("op_end", c, i, "ok")
                 except (SimAbort, SimLivelock):
                     raise
                 except HarnessSkip:
+                    self.ops_done[c] = self.ops_done.get(c, 0) + 1
                     self.sim.ev("op_end", c, i, "skipped")
                 except BaseException as e:  # noqa: BLE001
                     self.outcomes[(c, i)] = {"status": "exc", "exc": e, "type": type(e).__name__, "msg": str(e)}
+                    self.ops_done[c] = self.ops_done.get(c, 0) + 1
                     self.sim.ev("op_end", c, i, "exc", type(e).__name__)
+            self.clients_finished[c] = True
         return fn
 
     def execute(self) -> "Run":
